@@ -3,4 +3,6 @@ import OmbottModel.Model.Stream
 import OmbottModel.Model.Range
 import OmbottModel.Model.Multipart
 import OmbottModel.Model.MultipartSpec
+import OmbottModel.Model.Forms
+import OmbottModel.Model.BodyAccess
 import OmbottModel.Drv.All
